@@ -38,19 +38,21 @@ Clauses_merge(ev) ==
           (a.sample = "union" /\ a.observation = "union") =>
              VEq(Total(post), SumSeq([k \in 1..Len(tabs) |-> Total(tabs[k])])),
        C09_default_metadata_prefers_receiver |->
-          (a.mdf = "default") =>
-             /\ \A i \in 1..Len(post.obs) : RowAt(post, "observation", i) = FirstRow(tabs, "observation", post.obs[i])
-             /\ \A j \in 1..Len(post.samp) : RowAt(post, "sample", j) = FirstRow(tabs, "sample", post.samp[j]),
+          \* per axis: the default policy (receiver's metadata if it has any for the ID, else the other's)
+          /\ (a.omf = "default") =>
+                \A i \in 1..Len(post.obs) : RowAt(post, "observation", i) = FirstRow(tabs, "observation", post.obs[i])
+          /\ (a.smf = "default") =>
+                \A j \in 1..Len(post.samp) : RowAt(post, "sample", j) = FirstRow(tabs, "sample", post.samp[j]),
        C09_metadata_function_applied |->
           \* obs.mdcalls[k] = [axis, id, self_md, other_md, ret]: every logged call got the operands'
           \* metadata for that ID, and the result carries what the function returned
-          (a.mdf = "custom" /\ (\E k \in 1..Len(tabs) : tabs[k].omd.has \/ tabs[k].smd.has)) =>
+          ((a.smf = "custom" \/ a.omf = "custom") /\ (\E k \in 1..Len(tabs) : tabs[k].omd.has \/ tabs[k].smd.has)) =>
              /\ \A k \in 1..Len(ev.obs.mdcalls) :
                   LET c == ev.obs.mdcalls[k] IN
                   /\ SeqSet(c.self_md) = (IF Has(tabs[1], c.axis, c.id) THEN RowOf(tabs[1], c.axis, c.id) ELSE {})
                   /\ SeqSet(c.other_md) = (IF Has(tabs[2], c.axis, c.id) THEN RowOf(tabs[2], c.axis, c.id) ELSE {})
                   /\ Has(post, c.axis, c.id) => RowOf(post, c.axis, c.id) = SeqSet(c.ret)
-             /\ \A ax \in Axes : \A x \in SeqSet(Ids(post, ax)) :
+             /\ \A ax \in {x \in Axes : (IF x = "sample" THEN a.smf ELSE a.omf) = "custom"} : \A x \in SeqSet(Ids(post, ax)) :
                   \E k \in 1..Len(ev.obs.mdcalls) : ev.obs.mdcalls[k].axis = ax /\ ev.obs.mdcalls[k].id = x,
        C09_fast_and_general_paths_agree |->
           \* the driver merged deep copies again along the other implementation path
